@@ -90,7 +90,26 @@ def fl(h):
     return struct.unpack("<d", struct.pack("<Q", int(h, 16)))[0]
 
 
+def collision_search(ctx):
+    """search for a concrete failing input of the key order: two different labels that IndexInfo::operator< cannot tell apart
+    (a narrower hash, a comparison that ignores part of the key, ...) make the index table lose a site"""
+    thorough = ctx.tier == "thorough"
+    n = 2000000 if thorough else 300000
+    res = pipeline.run_batch([["collide %d %d" % (n, ctx.rng.below(1 << 30))]], "real", numeric=False)[0]
+    ctx.evaluations += 1
+    ctx.count("labels_searched_for_key_collisions", n)
+    hit = [l.split() for l in res.case.splitlines() if l.startswith("o collision")]
+    if not hit:
+        return
+    a, b = hit[0][2], hit[0][3]
+    s = ["site %s 1 2" % a, "site %s 2 1" % b, "dumplattice", "index 0",
+         "getindex %s 0 0" % a, "getindex %s 0 1" % a, "getindex %s 0 0" % b, "getindex %s 1 0" % b, "getinfo 0", "getinfo 3", "index 1"]
+    ctx.count("key_collisions_found")
+    pipeline.collect(ctx, pipeline.run_batch([s], "real"), ["C18"])
+
+
 def correspondence(ctx):
+    collision_search(ctx)
     r = ctx.rng
     thorough = ctx.tier == "thorough"
     scripts, metas = [], []
